@@ -845,6 +845,18 @@ func (fr *frame) callSpecBuiltin(fn *ssa.Function, args []*Val, resT types.Type,
 	case "sameSlice", "sameCerts", "sameElems", "sameStrings", "sameBytes", "sameAttrs", "sameChain", "sameFunc", "sameCipherFunc", "sameClaims", "sameTracked":
 		// identity of the two values (slice headers, or function values - which Go itself cannot compare)
 		return &Val{t: eq(fr.valTerm(args[0], st), fr.valTerm(args[1], st))}
+	case "fixedText":
+		// the argument is a compile-time constant of the program (go/ssa folds concatenations of constants): nothing that
+		// arrives at run time - a relay state, a name from a message - is part of it
+		t := fr.valTerm(args[0], st)
+		if len(t) >= 2 && strings.HasPrefix(t, "\"") && strings.HasSuffix(t, "\"") {
+			return &Val{t: "true"}
+		}
+		return &Val{t: "false"}
+	case "sameArray":
+		// the two slices are windows of one backing array (where each window starts follows from cap: cap = capacity of
+		// the array minus the window's offset)
+		return &Val{t: fmt.Sprintf("(= (s-arr %s) (s-arr %s))", fr.valTerm(args[0], st), fr.valTerm(args[1], st))}
 	case "ns":
 		return args[0]
 	case "nsToTime":
